@@ -7,7 +7,7 @@
 //         sz.<i> rem.<i> cur.<i> pk.<i> buf.<i> sc.<i>.<k> inc.<i> dec.<i> cc.<i>.<k>
 //         scu.<i>.<k> incu.<i> decu.<i> cp.<i>.<hex> al.<i>.<hex> un.<i>.<hex>
 //         scan.<i>.<hex> bscan.<i>.<hex> ex.<i>.<hex> xt.<i>.<n>
-// output: one token per op  `<result>|<cursor>,<size>,<hex of buf()>`  (probe of the slot operated on,
+// output: a summary token (see `run`), then one token per op  `<result>|<cursor>,<size>,<hex of buf()>`  (probe of the slot operated on,
 //         or of the slot just created), then for every live slot j `F<j>:<cursor>,<hex of whole view>`.
 //         A panic (caught per operation) prints `panic` and ends the line.
 use parsley_rust::pcore::parsebuffer::{ParseBuffer, ParseBufferT, StreamBufferT};
@@ -127,7 +127,7 @@ fn exec(slots: &mut Slots, op: &str) -> (String, Option<usize>) {
     }
 }
 
-pub fn run(line: &str) -> String {
+fn run_ops(line: &str) -> String {
     let w: Vec<&str> = line.split_whitespace().collect();
     if w.len() < 2 || (w[0] != "ops" && w[0] != "oops") {
         return "bad-case".to_string()
@@ -183,6 +183,30 @@ pub fn run(line: &str) -> String {
         }
     }
     out.join(" ")
+}
+
+// first token: outcome summary `clean:0` | `errs:<number of Err results>` | `panic:<index of the panicking op>`
+pub fn run(line: &str) -> String {
+    let body = run_ops(line);
+    if body == "bad-case" {
+        return body
+    }
+    let toks: Vec<&str> = body.split(' ').filter(|t| !t.is_empty()).collect();
+    let summary = if toks.last() == Some(&"panic") {
+        format!("panic:{}", toks.len() - 1)
+    } else {
+        let n = toks.iter().filter(|t| t.starts_with("e:")).count();
+        if n == 0 {
+            "clean:0".to_string()
+        } else {
+            format!("errs:{}", n)
+        }
+    };
+    if body.is_empty() {
+        summary
+    } else {
+        format!("{} {}", summary, body)
+    }
 }
 
 fn main() {
